@@ -294,7 +294,15 @@ def reg_value(case, x):
 
 
 # ---- convex sets ---------------------------------------------------------------------------------
-def set_projector(spec):
+def set_projector(spec, alias=False):
+    """Exact Euclidean projector of the set. alias=True: a feasible argument is handed back as the same object (the common
+    `if inside: return x` idiom of user-written projectors) instead of a copy."""
+    if alias:
+        base = set_projector(spec, alias=False)
+
+        def p(x):
+            return x if set_distance(spec, x) == 0.0 else base(x)
+        return p
     kind = spec["kind"]
     if kind == "ball":
         c = np.array(spec["c"], dtype=float)
